@@ -320,4 +320,68 @@ class Unknown(Sub):
         return None
 
 
-SUBS = [Names(), Values(), Custom(), Documented(), Predefined(), Unknown()]
+REBIND_OPS = [['parse', 'FX(2)'], ['parse', 'SUM(1,2)'], ['parse', 'vx+1'], ['setfn', 'FX', 0], ['setfn', 'FX', 1],
+              ['setfn', 'SUM', 0], ['setfn', 'SUM', 1], ['setvar', 'vx', 10], ['setvar', 'vx', 20], ['setvar', 'vx', 'SUM'],
+              ['parse', 'FX(SUM(vx,1))']]
+
+
+class Rebind(Sub):
+    name = 'c09.rebind'
+    rule = ('every history of <= 3 (quick) / 4 (thorough) operations over {parse x 4, set_function(name, body) x 4 incl. '
+            'shadowing the built-in SUM, set_variable x 3} on ONE parser, then the probes: each probe sees exactly the '
+            'bindings registered last (a name resolved before it was registered or re-registered must not stick); '
+            'non-trivial = history that re-registers a name after a parse used it')
+    min_cases = 100
+    min_nontrivial = 50
+
+    def cases(self, tier, unit):
+        depth = 3 if tier == 'quick' else 4
+        for n in range(1, depth + 1):
+            for h in itertools.product(range(len(REBIND_OPS)), repeat=n):
+                yield list(h)
+
+    def check(self, env, case):
+        hist = [REBIND_OPS[i] for i in case]
+        p = env.new_parser()
+        logs = []
+        bodies = {0: lambda *a: ('f0', list(a)), 1: lambda *a: ('f1', list(a))}
+        cur = {'FX': None, 'SUM': None, 'vx': None}
+        used = set()
+        rebinding = False
+        for op in hist:
+            if op[0] == 'parse':
+                env.evals += 1
+                p.parse(op[1])
+                for nm in ('FX', 'SUM', 'vx'):
+                    if nm in op[1]:
+                        used.add(nm)
+            elif op[0] == 'setfn':
+                if op[1] in used:
+                    rebinding = True
+                cur[op[1]] = op[2]
+                p.set_function(op[1], bodies[op[2]])
+            else:
+                if op[1] in used:
+                    rebinding = True
+                cur['vx'] = op[2]
+                p.set_variable('vx', op[2])
+        if rebinding:
+            env.nt()
+        # probes
+        env.evals += 3
+        out = env.out(p.parse('FX(7)'))
+        want = ['e', '#NAME?'] if cur['FX'] is None else ['v', {'$tuple': ['f%d' % cur['FX'], [7]]}]
+        if out != want:
+            return fail('after %r, FX(7) gives %r, expected %r (the function registered last)' % (hist, out, want), want, out)
+        out = env.out(p.parse('SUM(1,2)'))
+        want = ['v', 3] if cur['SUM'] is None else ['v', {'$tuple': ['f%d' % cur['SUM'], [1, 2]]}]
+        if out != want:
+            return fail('after %r, SUM(1,2) gives %r, expected %r' % (hist, out, want), want, out)
+        out = env.out(p.parse('vx'))
+        want = ['e', '#NAME?'] if cur['vx'] is None else ['v', cur['vx']]
+        if out != want:
+            return fail('after %r, vx gives %r, expected %r' % (hist, out, want), want, out)
+        return None
+
+
+SUBS = [Names(), Values(), Custom(), Documented(), Predefined(), Unknown(), Rebind()]
